@@ -79,9 +79,31 @@ func closureInCell(cell ssa.Value, depth int) *ssa.Function {
 	return nil
 }
 
+// fnPkg: the declaring package, also for instantiations of generic functions (whose Pkg field is nil).
+func fnPkg(f *ssa.Function) *ssa.Package {
+	if f == nil {
+		return nil
+	}
+	if f.Pkg != nil {
+		return f.Pkg
+	}
+	if o := f.Origin(); o != nil {
+		return o.Pkg
+	}
+	if f.Parent() != nil {
+		return fnPkg(f.Parent())
+	}
+	return nil
+}
+
 func samePkgHelper(fn *ssa.Function, cc *ssa.CallCommon) *ssa.Function {
 	h := resolveCallee(cc)
-	if h == nil || h.Pkg == nil || h.Pkg != fn.Pkg || len(h.Blocks) == 0 || h == fn {
+	// inside a generic body, calls to sibling generic functions name an instance over the type parameters that has
+	// no body of its own: the generic origin is the code that runs
+	if h != nil && (len(h.Blocks) == 0 || strings.HasPrefix(h.Synthetic, "instantiation wrapper")) && h.Origin() != nil && len(h.Origin().Blocks) > 0 {
+		h = h.Origin()
+	}
+	if h == nil || fnPkg(h) == nil || fnPkg(h) != fnPkg(fn) || len(h.Blocks) == 0 || h == fn {
 		return nil
 	}
 	return h
